@@ -82,7 +82,8 @@ def extract(repo=REPO, config='default', target_dir=None):
         # defeat cargo's freshness cache for the analysed crate
         for fp in glob.glob(os.path.join(tdir, 'debug', '.fingerprint', 'pgp-*')):
             subprocess.run(['rm', '-rf', fp])
-        tmp = out + '.tmp%d' % os.getpid()
+        import uuid
+        tmp = out + '.tmp%d-%s' % (os.getpid(), uuid.uuid4().hex[:8])   # unique per extraction: parallel workers may analyse identical trees
         env = dict(os.environ)
         env.update({
             'LD_LIBRARY_PATH': nightly_sysroot() + '/lib',
